@@ -98,6 +98,51 @@ class ValidatorModel:
         if not oks:
             res["why"] = (res["why"] or "") + " no Ok exit"
             return res
+        # a failure of the item's decoder must keep the validator from answering Ok: the failure edge of each consumer's
+        # result is tested and does not reach Ok (`u16::decode(&mut v).ok();` would accept anything)
+        for _c, ev in classes:
+            cname = ev["term"].callee.name if ev["term"].callee else None
+            tested = False
+            leaks = False
+            sw = []
+            for n in an.cfg.nodes:
+                if n not in region:
+                    continue
+                info = an.switch_info(n)
+                if info is None or info[0].k != "discr" or not info[3]:
+                    continue
+                if not any(x.k == "call" and x.site == ev["bb"] and x.a[0].name == cname for x in info[0].walk()):
+                    continue
+                sw.append((n, info))
+
+            def success_targets(info):
+                cond, targets, otherwise, names = info
+                out_ = [tb for v, tb in targets if names.get(v) in ("Continue", "Ok", "Some")]
+                rest = set(names.values()) - {names.get(x) for x, _ in targets}
+                if rest and rest <= {"Continue", "Ok", "Some"}:
+                    out_.append(otherwise)
+                return out_
+            for n, info in sw:
+                if any(n1 != n and any(an.cfg.dominates(st_, n) for st_ in success_targets(i1)) for n1, i1 in sw):
+                    continue  # re-test on the success path (drop elaboration): the failure edge is infeasible
+                cond, targets, otherwise, names = info
+                for v, tb in list(targets) + [("otherwise", otherwise)]:
+                    lab = names.get(v) if v != "otherwise" else None
+                    if lab in ("Continue", "Ok", "Some"):
+                        tested = True
+                        continue
+                    if lab is None and v == "otherwise":
+                        covered = {names.get(x) for x, _ in targets}
+                        rest = set(names.values()) - covered
+                        if rest and rest <= {"Continue", "Ok", "Some"}:
+                            tested = True
+                        if not rest or rest <= {"Continue", "Ok", "Some"}:
+                            continue
+                    if tb is not None and any(ob in an.cfg.reach(tb) or ob == tb for ob in oks):
+                        leaks = True
+            if not tested or leaks:
+                res["cls"] = None
+                res["why"] = "the value's decode failure does not prevent Ok"
         full_all = True
         for ob in oks:
             full = False
